@@ -15,10 +15,24 @@ REQ = {"initialize", "request", "unknown_req", "shutdown"}
 OK = "ok"
 
 
-def msg(kind, i):
+SUPPORTED = ["textDocument/foldingRange", "textDocument/formatting", "textDocument/semanticTokens/full", "textDocument/hover", "textDocument/completion", "textDocument/definition",
+             "textDocument/references", "textDocument/rename", "textDocument/prepareRename", "textDocument/signatureHelp", "textDocument/declaration", "textDocument/typeDefinition", "textDocument/implementation"]
+
+
+def supported_request(i, which=None):
+    m = SUPPORTED[(i if which is None else which) % len(SUPPORTED)]
+    p = {"textDocument": {"uri": URI}}
+    if m.endswith("formatting"): p["options"] = {"tabSize": 4, "insertSpaces": True}
+    elif not m.endswith(("foldingRange", "full")): p["position"] = {"line": 0, "character": 6}
+    if m.endswith("references"): p["context"] = {"includeDeclaration": True}
+    if m.endswith("/rename"): p["newName"] = "renamed"
+    return {"jsonrpc": "2.0", "id": i, "method": m, "params": p}
+
+
+def msg(kind, i, variant=0):
+    if kind == "request": return supported_request(i, i + variant)
     if kind == "initialize": return {"jsonrpc": "2.0", "id": i, "method": "initialize", "params": {"capabilities": {}}}
     if kind == "initialized": return {"jsonrpc": "2.0", "method": "initialized", "params": {}}
-    if kind == "request": return {"jsonrpc": "2.0", "id": i, "method": "textDocument/foldingRange", "params": {"textDocument": {"uri": URI}}}
     if kind == "unknown_req": return {"jsonrpc": "2.0", "id": i, "method": "foo/bar", "params": {}}
     if kind == "doc_note": return {"jsonrpc": "2.0", "method": "textDocument/didOpen", "params": {"textDocument": {"uri": URI, "languageId": "spl", "version": 0, "text": "proc main() {}\n"}}}
     if kind == "unknown_note": return {"jsonrpc": "2.0", "method": "foo/note", "params": {}}
@@ -69,8 +83,9 @@ def proc_quiescent(pid):
 
 class Run:
     """one server process driven with raw bytes"""
-    def __init__(s, binpath):
-        s.p = subprocess.Popen([binpath], stdin=subprocess.PIPE, stdout=subprocess.PIPE, stderr=subprocess.DEVNULL, bufsize=0)
+    def __init__(s, binpath, env=None):
+        e = dict(os.environ); e.update(env or {})
+        s.p = subprocess.Popen([binpath], stdin=subprocess.PIPE, stdout=subprocess.PIPE, stderr=subprocess.DEVNULL, bufsize=0, env=e)
         s.parser = FrameParser(); s.msgs = []; s.torn = None; s.eof = False
 
     def write(s, b):
@@ -134,11 +149,11 @@ def responses(msgs):
     return out
 
 
-def check_session(part, binpath, seq, schedule, open_ids):
+def check_session(part, binpath, seq, schedule, open_ids, variant=0, env=None):
     exp, erc, at = model(seq)
-    data = [frame(msg(k, i)) for i, k in enumerate(seq[:at] if at else seq, 1)]
-    r = Run(binpath)
-    sc = {"kind": "sequence", "sequence": list(seq), "schedule": schedule}
+    data = [frame(msg(k, i, variant)) for i, k in enumerate(seq[:at] if at else seq, 1)]
+    r = Run(binpath, env)
+    sc = {"kind": "sequence", "sequence": list(seq), "schedule": schedule, "variant": variant, "env": env}
     what = "%s %s" % (schedule, "[" + ", ".join(seq) + "]")
     try:
         if schedule == "pipelined":
@@ -185,12 +200,28 @@ def worker_seqs(args):
             k += 1
             if k % nshards != shard: continue
             if sample is not None and n > sample[0] and rng.random() > sample[1]: continue
-            for sch in schedules: check_session(part, binpath, seq, sch, open_ids)
+            for sch in schedules: check_session(part, binpath, seq, sch, open_ids, variant=rng.randrange(13))
     # random long sequences
     for _ in range(args[4][2] if sample else 30):
         n = rng.randint(5, 40)
         seq = tuple(rng.choice(ALPHA[:7] if rng.random() < .8 else ALPHA) for _ in range(n))
         check_session(part, binpath, seq, rng.choice(schedules), open_ids)
+    return part
+
+
+def worker_bursts(args):
+    """pipelined bursts of every size 1..N behind a slowed-down responder (hook H3): every request is answered, in order, and nothing is lost at shutdown"""
+    shard, nshards, maxn, seed = args
+    binpath = server_bin("rel"); part = Part()
+    rng = random.Random("C18/burst/%s/%d" % (seed, shard))
+    for n in range(1, maxn + 1):
+        if n % nshards != shard: continue
+        seq = ("initialize", "initialized", "doc_note") + ("request",) * n + ("shutdown", "exit")
+        for delay in (None, "300", "2000", "10000"):
+            env = {"VERIF_DELAY_RESPONDER_US": delay} if delay else None
+            before = len(part["failures"])
+            check_session(part, binpath, seq, "pipelined", set(), variant=rng.randrange(13), env=env)
+            if len(part["failures"]) == before: part.cnt("burst_sessions_ok")
     return part
 
 
@@ -268,6 +299,7 @@ def run(ctx):
     sample = (3, .2, 20) if ctx.quick else (5, .25, 200)     # beyond length sample[0] only a fraction of the sequences (all of them up to it)
     jobs = [(i, NCPU, maxlen, ["lock-step", "pipelined"], sample, ctx.seed, open_ids) for i in range(NCPU)]
     for p in pmap(worker_seqs, jobs): ctx.merge(p)
+    for p in pmap(worker_bursts, [(i, NCPU, 100 if ctx.quick else 300, ctx.seed) for i in range(NCPU)]): ctx.merge(p)
     ns = 2 if ctx.quick else len(SESSIONS)
     for p in pmap(worker_prefix, [(si, sh, 8) for si in range(ns) for sh in range(8)]): ctx.merge(p)
     part = Part(); stdin_open_exit(part, binpath, open_ids); ctx.merge(part)
@@ -288,7 +320,7 @@ def run(ctx):
 def replay(ctx, sc):
     part = Part(); binpath = server_bin("rel")
     open_ids = set(f["id"] for f in ctx.open_findings())
-    if sc["kind"] == "sequence": check_session(part, binpath, tuple(sc["sequence"]), sc["schedule"], open_ids)
+    if sc["kind"] == "sequence": check_session(part, binpath, tuple(sc["sequence"]), sc["schedule"], open_ids, sc.get("variant", 0), sc.get("env"))
     elif sc["kind"] == "stdin-open": stdin_open_exit(part, binpath, open_ids)
     else:
         seq = tuple(sc["session"]); global SESSIONS
